@@ -62,6 +62,8 @@ func runSched(sc *schedCase) (kit.Case, error) {
 	wrap.Before = func(c *kit.Call) kit.Verdict {
 		if p := sched.Current(); p != nil && readOp(c.Op) {
 			p.Yield("before-read")
+		} else if p != nil && writeOp(c.Op) {
+			p.Yield("before-write")
 		}
 		return kit.Verdict{}
 	}
@@ -142,7 +144,16 @@ func runSched(sc *schedCase) (kit.Case, error) {
 	var obs, ps []string
 	sc.Obs = nil
 	skipped := 0
+	wAtStart := true
 	for _, who := range sc.Sched {
+		silent := who == "w" // "w": let the writer run the part of its operation that precedes the storage call
+		if silent {
+			if !wAtStart {
+				skipped++
+				continue
+			}
+			who = "W"
+		}
 		p := procs[who]
 		if p == nil {
 			return kit.Case{}, fmt.Errorf("unknown process %q", who)
@@ -154,6 +165,20 @@ func runSched(sc *schedCase) (kit.Case, error) {
 		pt, err := p.Step()
 		if err != nil {
 			return kit.Case{}, err
+		}
+		if who == "W" && pt == "before-write" {
+			// in the model the writer does nothing to the cache before its storage call: reaching the
+			// call is not a step of its own; whatever the code does there shows in the readers' steps
+			wAtStart = false
+			if silent {
+				continue
+			}
+			if pt, err = p.Step(); err != nil {
+				return kit.Case{}, err
+			}
+		}
+		if who == "W" {
+			wAtStart = pt != "after-write"
 		}
 		var o string
 		switch {
@@ -256,7 +281,7 @@ func lastStepOf(ps, obs []string, who string) string {
 // (who is between which steps, whether the key is cached) so that every entry is a possible step
 func genSchedule(r *kit.Rng, sc *schedCase) []string {
 	cached := false
-	wLeft, wMid := len(sc.Prog), false
+	wLeft, wMid, wPre := len(sc.Prog), false, false
 	wi := 0
 	type rs struct {
 		left int
@@ -274,6 +299,9 @@ func genSchedule(r *kit.Rng, sc *schedCase) []string {
 		if wMid || wLeft > 0 {
 			en = append(en, "W")
 		}
+		if !wMid && !wPre && wLeft > 0 {
+			en = append(en, "w")
+		}
 		for i, x := range rds {
 			if x.pc > 0 || x.left > 0 {
 				en = append(en, fmt.Sprintf("R%d", i))
@@ -284,7 +312,12 @@ func genSchedule(r *kit.Rng, sc *schedCase) []string {
 		}
 		who := kit.Pick(r, en)
 		out = append(out, who)
+		if who == "w" {
+			wPre = true
+			continue
+		}
 		if who == "W" {
+			wPre = false
 			if wMid {
 				wMid = false
 				cached = sc.Prog[wi-1] != "del"
